@@ -111,3 +111,26 @@ Definition pm_setdefault_update (m : m2m) (d : msel) (k : nat) (vals : list nat)
 (* evaluating D[k] only to bind a local alias of the stored set: KeyError if absent *)
 Definition pm_lookup (m : m2m) (d : msel) (k : nat) : res unit :=
   match d_get (msel_get m d) k with Some _ => Ok tt | None => Raise KeyError end.
+
+(* ---- OneToOne.update: the positional argument and the keyword arguments ---------------------
+   The argument is a dict, a non-dict mapping (has keys()) or a RE-ITERABLE sequence of pairs; one-shot
+   iterators are outside this pure rendering (they are exercised by the correspondence run). *)
+Inductive uarg := ADict (kvs : list kv) | AMap (kvs : list kv) | ASeq (kvs : list kv).
+Definition uarg_pairs (a : uarg) : list kv := match a with ADict k | AMap k | ASeq k => k end.
+(* isinstance(x, dict) *)
+Definition uarg_is_dict (a : uarg) : bool := match a with ADict _ => true | _ => false end.
+(* callable(getattr(x, 'keys', None)) *)
+Definition uarg_has_keys (a : uarg) : bool := match a with ASeq _ => false | _ => true end.
+(* x.values() / x.items() of a dict or mapping *)
+Definition uarg_values (a : uarg) : list nat := map snd (uarg_pairs a).
+Definition uarg_items (a : uarg) : list kv := uarg_pairs a.
+(* [(k, x[k]) for k in x.keys()] *)
+Definition uarg_of_mapping (a : uarg) : uarg := ASeq (uarg_pairs a).
+(* list(x) followed by unpacking its elements as pairs: only a sequence of pairs yields pairs
+   (list(mapping) would yield keys, and `for key, val in ...` would then fail to unpack) *)
+Definition uarg_list (a : uarg) : res (list kv) :=
+  match a with ASeq k => Ok k | _ => Raise ValueError end.
+
+(* for x in l: body   carrying the locals the body assigns *)
+Definition pfor {A B} (l : list B) (body : A -> B -> res A) (a : A) : res A :=
+  fold_left (fun acc x => bind acc (fun a => body a x)) l (Ok a).
